@@ -1,3 +1,5 @@
+pub mod c15;
+
 pub fn all() -> Vec<&'static dyn simcore::Property> {
-    vec![]
+    vec![&c15::C15]
 }
